@@ -390,6 +390,84 @@ def lifecycle_stage(chk, build, distinct, quick, factor):
     return len(cases)
 
 
+# ---------------------------------------------------------------------------------------------
+# real TCP: each node has its own listener on a loopback port, dials go through client_connect;
+# optionally NodeConnectionMode::Transitive (peers are discovered through a common peer and dialled
+# by the library itself). Real time is involved, so the harness waits for the expected end state with a
+# generous bound (a miss is an infrastructure verdict) and the oracle judges the events and the direction.
+
+TCP_SHAPES = [
+    ("iso", (1, 2), ["d01", "d10"], ["01"]),
+    ("iso", (2, 1), ["d01", "d10"], ["01"]),
+    ("iso", (1, 2), ["d01", "d01"], ["01"]),
+    ("iso", (2, 1), ["d10", "d10", "d01"], ["01"]),
+    ("iso", (1, 2), ["d01", "d10", "d01", "d10"], ["01"]),
+    ("iso", (2, 1, 3), ["d01", "d10", "d02", "d20", "d21"], ["01", "02", "12"]),
+    ("trans", (1, 2, 3), ["d01", "d21"], ["01", "02", "12"]),
+    ("trans", (3, 1, 2), ["d10", "d20"], ["01", "02", "12"]),
+    ("trans", (2, 3, 1), ["d01", "d12", "d01"], ["01", "02", "12"]),
+    ("trans", (1, 2), ["d01", "d10"], ["01"]),
+]
+
+
+def gen_tcp_cases(chk, quick, factor):
+    rng = chk.rng
+    cases = []
+    for mode, names, dials, expect in TCP_SHAPES:
+        for rep in range((1 if quick else 6) * factor):
+            d = list(dials)
+            if rep:
+                rng.shuffle(d)
+            cases.append({"kind": "tcp/" + mode, "mode": mode, "names": names, "dials": d, "expect": expect})
+    return cases
+
+
+def tcp_line(c):
+    return (f"tcp names={','.join(map(str, c['names']))} mode={c['mode']} expect={','.join(c['expect'])} | "
+            + " ".join(c["dials"]))
+
+
+def tcp_oracle(c, t):
+    why = []
+    events = [tuple(e[1:]) for e in t[1]]
+    table = {n[1]: n[2] for n in t[2]}
+    survivors = {(node, s[1]) for node, ss in table.items() for s in ss}
+    per = {}
+    for idx, (node, kind, sid, srv, conn) in enumerate(events):
+        per.setdefault((node, sid), []).append(kind)
+    for (node, sid), kinds in per.items():
+        if kinds != sorted(kinds) or any(kinds.count(k) > 1 for k in (0, 1, 2, 3)):
+            why.append(f"node {node} session {sid}: events out of order or repeated: {kinds}")
+        if (node, sid) in survivors and kinds.count(2) != 1:
+            why.append(f"node {node}: the surviving session {sid} reported ready {kinds.count(2)} times")
+        if (node, sid) not in survivors and 2 in kinds and 3 not in kinds:
+            why.append(f"node {node}: session {sid} reported ready, is not a survivor and was never disconnected")
+    for pr in c["expect"]:
+        x, y = int(pr[0]), int(pr[1])
+        rx, ry = c["names"][x], c["names"][y]
+        sx = [s for s in table.get(x, []) if s[3] == ry]
+        sy = [s for s in table.get(y, []) if s[3] == rx]
+        if len(sx) != 1 or len(sy) != 1:
+            why.append(f"nodes {x}/{y}: {len(sx)} / {len(sy)} sessions for each other")
+            continue
+        if sx[0][2] == sy[0][2]:
+            why.append(f"nodes {x}/{y}: both surviving sessions have is_server={sx[0][2]} — they cannot be the two ends of one connection")
+            continue
+        initiator = x if sx[0][2] == "false" else y
+        later = x if rx > ry else y
+        allowed = set()
+        if f"d{x}{y}" in c["dials"]:
+            allowed.add(x)
+        if f"d{y}{x}" in c["dials"]:
+            allowed.add(y)
+        if len(allowed) == 2 or (c["mode"] == "trans" and len(allowed) == 1):
+            allowed = {later} if len(allowed) == 2 else allowed | {later}
+        if allowed and initiator not in allowed:
+            why.append(f"nodes {x}/{y}: the surviving connection was dialled by node {initiator}; dials {c['dials']}, names {rx}/{ry}: "
+                       f"expected the one dialled by {sorted(allowed)} (both directions present: the later-sorting name's dial)")
+    return why
+
+
 def pairs_of(conns):
     out = {}
     for k, (x, y) in enumerate(conns):
@@ -402,14 +480,26 @@ def stage(chk, build, quick, factor, distinct):
     infrastructure failure (message printed)."""
     cases = gen_cases(chk, quick, factor)
     lcases = gen_legacy_cases(chk, quick, factor)
+    tcases = gen_tcp_cases(chk, quick, factor)
     try:
         allouts = run_harness(build, "eng_elect_net",
-                              [line_of(c["names"], c["conns"], c["tokens"]) for c in cases] + [legacy_line(c) for c in lcases],
+                              [line_of(c["names"], c["conns"], c["tokens"]) for c in cases] + [legacy_line(c) for c in lcases]
+                              + [tcp_line(c) for c in tcases],
                               shards=4, timeout=2400)
     except RuntimeError as e:
         print(f"[{chk.prop}] two-node election engine did not complete: {str(e)[-1200:]}")
         return None
-    outs, louts = allouts[:len(cases)], allouts[len(cases):]
+    outs, louts, touts = allouts[:len(cases)], allouts[len(cases):len(cases) + len(lcases)], allouts[len(cases) + len(lcases):]
+    # ---- real TCP / transitive mode
+    for c, out in zip(tcases, touts):
+        why = tcp_oracle(c, parse_term(out))
+        chk.coverage["evaluations"] += 1
+        chk.count("net." + c["kind"])
+        distinct.add(tcp_line(c))
+        if why:
+            desc = json.dumps({"kind": "tcp", "harness_line": tcp_line(c), "why": why, "impl": out[:4000]}, indent=1)
+            chk.violation("real NodeServers over real TCP: " + why[0][:300],
+                          "C18 two-node oracle (TCP listeners, client_connect) rejects what the real NodeServers did\n" + desc)
     # ---- legacy zero / repeated nonce family
     lobs, lexprs, lmeta = [], [], []
     for c, out in zip(lcases, louts):
@@ -531,10 +621,12 @@ def stage(chk, build, quick, factor, distinct):
         if len(chk.coverage["samples"]) < 8 and c["kind"].startswith("stall") and ci % 37 == 0:
             chk.coverage["samples"].append({"harness_line": line_of(c["names"], c["conns"], c["tokens"]),
                                             "impl": outs[ci][:1500]})
-    return len(cases) + len(lcases)
+    return len(cases) + len(lcases) + len(tcases)
 
 
 TRUSTED_NET = [
+    "TCP family: real listeners on loopback ports and client_connect, real-time runtime; the harness waits (60 s bound, else infrastructure "
+    "failure) for the expected end state before the Python oracle judges events, one session per pair and the surviving direction",
     "handler-level life cycles (lib/c18_net.py lifecycle_stage): the node-server side is the real code (eng_elect table lines, replayed "
     "prefix by prefix); the sessions' reactions to its answers (close on NotOk, wait on Alive, post-authentication CheckSession, removal "
     "of stopped sessions) are replayed in Python after node_session.rs; the oracle 'an authenticated connection is never closed while no "
